@@ -220,6 +220,23 @@ def check_spin_flatten(ctx, rid, floor=8):
                 if not isinstance(n, ast.Assign) or m.qualname_of(n) != qual:
                     continue
                 v = n.value
+                # `a, b = (x.<expansion> for x in (a, b))`: the expansion of the comprehension variable applies to every listed per-molecule vector
+                if isinstance(v, (ast.GeneratorExp, ast.ListComp)) and len(v.generators) == 1 and isinstance(v.generators[0].target, ast.Name) \
+                        and isinstance(v.generators[0].iter, (ast.Tuple, ast.List)) and v.generators[0].iter.elts \
+                        and all(isinstance(e_, ast.Name) and kind_of(ast.Name(id=e_.id.split("__")[0], ctx=ast.Load())) in ("nHeavy", "nHydro", "nSuperHeavy", "norb") for e_ in v.generators[0].iter.elts):
+                    var_ = v.generators[0].target.id
+                    first_ = v.generators[0].iter.elts[0]
+
+                    class _S(ast.NodeTransformer):
+                        def visit_Name(s_, x_):
+                            return ast.copy_location(ast.Name(id=first_.id.split("__")[0], ctx=ast.Load()), x_) if x_.id == var_ else x_
+                    import copy as _copy
+                    v = _S().visit(_copy.deepcopy(v.elt))
+                    n = ast.copy_location(ast.Assign(targets=[ast.Name(id=first_.id.split("__")[0], ctx=ast.Store())], value=v, lineno=n.lineno), n)
+                # look through shape-only wrappers: n.expand(2, -1).reshape(-1) is an expansion of n
+                while isinstance(v, ast.Call) and isinstance(v.func, ast.Attribute) and v.func.attr in ("reshape", "view", "flatten", "contiguous", "clone", "to") \
+                        and isinstance(v.func.value, ast.Call) and isinstance(v.func.value.func, ast.Attribute):
+                    v = v.func.value
                 if isinstance(v, ast.Call) and isinstance(v.func, ast.Attribute) and kind_of(v.func.value) in ("nHeavy", "nHydro", "nSuperHeavy", "norb") and kind_of(n.targets[0]):
                     at = v.func.attr
                     if at in ("repeat_interleave", "repeat", "tile", "expand"):
